@@ -311,7 +311,7 @@ func (u *Upstream) run(isResume bool) error {
 						DataPointGroups: dpg,
 					},
 				}
-				resultCh := make(chan *message.UpstreamChunkResult)
+				resultCh := make(chan *message.UpstreamChunkResult, 1) // see flush
 				u.mu.Lock()
 				u.upstreamChunkResultChs[chunk.StreamChunk.SequenceNumber] = resultCh
 				u.mu.Unlock()
@@ -481,7 +481,9 @@ func (u *Upstream) flush(ctx context.Context) error {
 		return err
 	}
 
-	resultCh := make(chan *message.UpstreamChunkResult)
+	// buffered: processResult hands the result over while holding u.mu and must not wait for a receiver that has
+	// given up meanwhile (an ack that arrives after the ack timeout)
+	resultCh := make(chan *message.UpstreamChunkResult, 1)
 	u.upstreamChunkResultChs[msgChunk.StreamChunk.SequenceNumber] = resultCh
 	go u.sendChunkAndWaitAck(ctx, msgChunk, resultCh)
 	return nil
